@@ -120,10 +120,17 @@ pub fn vx_retain_not_under(v: &mut Vec<PathS>, check_path: &PathS)
 // so far and the path
 pub struct FilterS { pub files: Ghost<Seq<IgnoreFile>> }
 pub uninterp spec fn dir_passes(files: Seq<IgnoreFile>, p: PathS) -> bool;
+pub struct FilterErr;
 impl FilterS {
     #[verifier::external_body]
     pub fn check_dir(&self, p: &PathS) -> (r: bool) ensures r == dir_passes(self.files@, *p) { unimplemented!() }
+    // IgnoreFilter::add_file (unit ignorebuild): reads the file and adds its patterns for its directory; on a read/glob error nothing is added
+    #[verifier::external_body]
+    pub fn add_file(&mut self, ig: &IgnoreFile) -> (r: Result<(), FilterErr>)
+        ensures r is Ok ==> final(self).files@ == old(self).files@.push(*ig), r is Err ==> final(self).files@ == old(self).files@ { unimplemented!() }
 }
+#[verifier::external_body]
+pub fn vx_other_error(e: FilterErr) -> (r: IoError) { unimplemented!() }
 // the directory listing
 pub struct FileTypeS { pub dir: bool }
 impl FileTypeS { pub fn is_dir(&self) -> (r: bool) ensures r == self.dir { self.dir } }
